@@ -725,4 +725,19 @@ theorem C14_query_keeps_bound (st : Index) (hstar : StarOnly st) (hcoh : Coh st)
     rw [this]
     exact Nat.le_refl _
 
+open ImpC ImpT in
+/-- **C07 for the import memo (warm = cold).** A query answered with a coherent memo table returns
+    the same set of names as the same query on the same index with an EMPTY memo table. -/
+theorem C07_imported_warm_eq_cold (st : Index) (hstar : StarOnly st) (hcoh : Coh st) (f : Path) :
+    ∀ m, m ∈ (Index.imported st.fuelFor st f []).1 ↔
+      m ∈ (Index.imported st.fuelFor { st with impCache := [] } f []).1 := by
+  intro m
+  have hcold : Coh { st with impCache := [] } := by
+    intro g v t ver names _ hl
+    simp [alookup] at hl
+  have h1 := C14_imported_is_closure st hstar hcoh f m
+  have h2 := C14_imported_is_closure { st with impCache := [] } (starOnly_memo st [] hstar) hcold f m
+  rw [prov_memo] at h2
+  exact h1.trans h2.symm
+
 end PLS
